@@ -94,7 +94,7 @@ impl<'a> W<'a> {
                 }
             }
             Ws::Random(_) => {
-                let opts = ["", " ", "\n", "\t", "  ", " \n ", "\r\n", "\n\n\t"];
+                let opts = ["", " ", "\n", "\t", "  ", " \n ", "\r\n", "\n\n\t", "\r", "\r\t"];
                 let k = (self.ws_rng.next() % opts.len() as u64) as usize;
                 self.out.push_str(opts[k]);
             }
